@@ -27,6 +27,11 @@ impl ParseBuffer {
     pub fn error<M>(&self, msg: M) -> (r: SynError) { unimplemented!() }
     #[verifier::external_body]
     pub fn is_empty(&self) -> (r: bool) { unimplemented!() }
+    /// nothing is left in the stream - as a pure function of the stream reference: only for functions that consume
+    /// nothing (A13); `is_empty_now` is `is_empty` with that meaning attached (R12 in such functions)
+    pub uninterp spec fn is_empty_spec(&self) -> bool;
+    #[verifier::external_body]
+    pub fn is_empty_now(&self) -> (r: bool) ensures r == self.is_empty_spec(), { unimplemented!() }
     #[verifier::external_body]
     pub fn parse<T: Parse>(&self) -> (r: syn::Result<T>) { unimplemented!() }
 }
@@ -34,7 +39,7 @@ impl ParseBuffer {
 // `GroupDeterminer`: opaque in the modules that only pass it around (raw unit `opaque_group_determiner`), the real struct
 // minus its fn-pointer union (A11) in module `parse`
 
-pub struct Empty { _p: () }
+pub struct Empty;
 impl Parse for Empty {}
 impl Parse for Expr {}
 impl Parse for Type {}
